@@ -79,6 +79,10 @@ type pstep struct {
 	Sub        int // >0: a call to sub-program contract index Sub (payload ignored)
 	Gas        uint64
 	Bubble     bool
+	// Impossible: the operation cannot be carried out in any state of this fixture (more than exists). Such a
+	// call is removed from the twin even when it does not revert: reporting the failure through the return
+	// value is no licence to leave effects behind.
+	Impossible bool
 }
 
 type pcontract struct {
@@ -205,13 +209,13 @@ func (r *c09Run) lib(self int) []pstep {
 	L := []pstep{
 		{Label: "staking.delegateV2(v0)", To: cst(st), Data: dat(fix.StakingPack("delegateV2", v0, fx(1000))), Precompile: true},
 		{Label: "staking.delegateV2(v1)", To: cst(st), Data: dat(fix.StakingPack("delegateV2", v1, fx(700))), Precompile: true},
-		{Label: "staking.delegateV2(too much)", To: cst(st), Data: dat(fix.StakingPack("delegateV2", v0, fx(90_000_000))), Precompile: true},
+		{Label: "staking.delegateV2(too much)", To: cst(st), Data: dat(fix.StakingPack("delegateV2", v0, fx(90_000_000))), Precompile: true, Impossible: true},
 		{Label: "staking.undelegateV2(v0)", To: cst(st), Data: dat(fix.StakingPack("undelegateV2", v0, fx(300))), Precompile: true},
 		{Label: "staking.redelegateV2(v0->v1)", To: cst(st), Data: dat(fix.StakingPack("redelegateV2", v0, v1, fx(200))), Precompile: true},
 		{Label: "staking.withdraw(v0)", To: cst(st), Data: dat(fix.StakingPack("withdraw", v0)), Precompile: true},
 		{Label: "staking.approveShares(v0)", To: cst(st), Data: dat(fix.StakingPack("approveShares", v0, e.Other.Hex(), big.NewInt(77))), Precompile: true},
 		{Label: "staking.transferShares(v0->other)", To: cst(st), Data: dat(fix.StakingPack("transferShares", v0, e.Other.Hex(), fx(100))), Precompile: true},
-		{Label: "staking.transferShares(too many)", To: cst(st), Data: dat(fix.StakingPack("transferShares", v0, e.Other.Hex(), fx(50_000_000))), Precompile: true},
+		{Label: "staking.transferShares(too many)", To: cst(st), Data: dat(fix.StakingPack("transferShares", v0, e.Other.Hex(), fx(50_000_000))), Precompile: true, Impossible: true},
 		{Label: "staking.transferFromShares(victim->self)", To: cst(st), Data: func(a []common.Address) []byte {
 			return fix.StakingPack("transferFromShares", v0, e.Victim.Hex(), a[self], fx(50))
 		}, Precompile: true},
@@ -219,21 +223,21 @@ func (r *c09Run) lib(self int) []pstep {
 		{Label: "usdt.transfer(other)", To: cst(e.USDT.ERC20), Data: dat(chain.ERC20Pack("transfer", e.Other.Hex(), big.NewInt(30)))},
 		{Label: "crosschain.crossChain(usdt)", To: cst(cc), Data: dat(fix.PackCrosschain("crossChain", e.USDT.ERC20, receipt, big.NewInt(500), big.NewInt(5), target, "")), Precompile: true},
 		{Label: "crosschain.crossChain(fx by value)", To: cst(cc), Value: big.NewInt(1005), Data: dat(fix.PackCrosschain("crossChain", common.Address{}, receipt, big.NewInt(1000), big.NewInt(5), target, "")), Precompile: true},
-		{Label: "crosschain.crossChain(fx by value, ibc channel missing)", To: cst(cc), Value: big.NewInt(1000), Data: dat(fix.PackCrosschain("crossChain", common.Address{}, e.Other.Bech32(), big.NewInt(1000), big.NewInt(0), ibcTarget, "")), Precompile: true},
-		{Label: "crosschain.crossChain(usdt, ibc channel missing)", To: cst(cc), Data: dat(fix.PackCrosschain("crossChain", e.USDT.ERC20, e.Other.Bech32(), big.NewInt(500), big.NewInt(0), ibcTarget, "")), Precompile: true},
+		{Label: "crosschain.crossChain(fx by value, ibc channel missing)", To: cst(cc), Value: big.NewInt(1000), Data: dat(fix.PackCrosschain("crossChain", common.Address{}, e.Other.Bech32(), big.NewInt(1000), big.NewInt(0), ibcTarget, "")), Precompile: true, Impossible: true},
+		{Label: "crosschain.crossChain(usdt, ibc channel missing)", To: cst(cc), Data: dat(fix.PackCrosschain("crossChain", e.USDT.ERC20, e.Other.Bech32(), big.NewInt(500), big.NewInt(0), ibcTarget, "")), Precompile: true, Impossible: true},
 		{Label: "crosschain.bridgeCall(usdt)", To: cst(cc), Data: func(a []common.Address) []byte {
 			return fix.PackCrosschain("bridgeCall", cn, a[self], []common.Address{e.USDT.ERC20}, []*big.Int{big.NewInt(300)}, e.Other.Hex(), []byte{1, 2}, big.NewInt(0), []byte{})
 		}, Precompile: true},
 		{Label: "crosschain.bridgeCall(bad chain)", To: cst(cc), Data: func(a []common.Address) []byte {
 			return fix.PackCrosschain("bridgeCall", "nochain", a[self], []common.Address{e.USDT.ERC20}, []*big.Int{big.NewInt(300)}, e.Other.Hex(), []byte{}, big.NewInt(0), []byte{})
-		}, Precompile: true},
+		}, Precompile: true, Impossible: true},
 		{Label: "crosschain.cancelSendToExternal(next id)", To: cst(cc), Data: dat(fix.PackCrosschain("cancelSendToExternal", cn, new(big.Int).SetUint64(r.nextID))), Precompile: true},
-		{Label: "crosschain.cancelSendToExternal(victim id)", To: cst(cc), Data: dat(fix.PackCrosschain("cancelSendToExternal", cn, new(big.Int).SetUint64(e.VictimTxIDs[0]))), Precompile: true},
+		{Label: "crosschain.cancelSendToExternal(victim id)", To: cst(cc), Data: dat(fix.PackCrosschain("cancelSendToExternal", cn, new(big.Int).SetUint64(e.VictimTxIDs[0]))), Precompile: true, Impossible: true},
 		{Label: "crosschain.increaseBridgeFee(next id)", To: cst(cc), Data: dat(fix.PackCrosschain("increaseBridgeFee", cn, new(big.Int).SetUint64(r.nextID), e.USDT.ERC20, big.NewInt(3))), Precompile: true},
 		{Label: "crosschain.executeClaim(parked 0)", To: cst(cc), Data: dat(fix.PackCrosschain("executeClaim", cn, new(big.Int).SetUint64(r.parked[0]))), Precompile: true},
 		{Label: "crosschain.executeClaim(parked 1)", To: cst(cc), Data: dat(fix.PackCrosschain("executeClaim", cn, new(big.Int).SetUint64(r.parked[1]))), Precompile: true},
-		{Label: "crosschain.garbage", To: cst(cc), Data: dat([]byte{0xde, 0xad, 0xbe, 0xef, 1, 2, 3}), Precompile: true},
-		{Label: "staking.garbage", To: cst(st), Data: dat(append(fix.StakingPack("delegateV2", v0, fx(1))[:4], 0xff, 0xff)), Precompile: true},
+		{Label: "crosschain.garbage", To: cst(cc), Data: dat([]byte{0xde, 0xad, 0xbe, 0xef, 1, 2, 3}), Precompile: true, Impossible: true},
+		{Label: "staking.garbage", To: cst(st), Data: dat(append(fix.StakingPack("delegateV2", v0, fx(1))[:4], 0xff, 0xff)), Precompile: true, Impossible: true},
 	}
 	return L
 }
@@ -437,7 +441,7 @@ func keptSets(cons []pcontract, a *execOut, txOK bool) [][]bool {
 			continue
 		}
 		for j := range cons[i].Steps {
-			keep[i][j] = a.slots[i][j] == 2
+			keep[i][j] = a.slots[i][j] == 2 && !cons[i].Steps[j].Impossible
 		}
 	}
 	return keep
@@ -646,6 +650,18 @@ func hash8(s string) []byte {
 
 // c09Culprit names the first discarded precompile step (the likely source of a partial effect).
 func c09Culprit(cons []pcontract, a *execOut, keep [][]bool, txOK bool) string {
+	// an impossible operation that did not revert is the prime suspect
+	for i, pc := range cons {
+		for j, s := range pc.Steps {
+			if s.Precompile && s.Impossible && txOK && a.slots[i][j] == 2 {
+				l := s.Label
+				if k := strings.IndexByte(l, '('); k > 0 {
+					l = l[:k]
+				}
+				return l + "/impossible-call-did-not-revert"
+			}
+		}
+	}
 	for i, pc := range cons {
 		for j, s := range pc.Steps {
 			if s.Precompile && !keep[i][j] && (!txOK || a.slots[i][j] == 1 || i > 0) {
